@@ -72,6 +72,11 @@ class Contract:
     def ensures(self, c) -> list:
         return []
 
+    def axioms(self, c) -> list:
+        """Definitional axioms of ghost/spec functions (recursive definitions): assumed when the function is
+        verified AND at call sites (never checked; listed in the evidence)."""
+        return []
+
     def finding_regions(self, c) -> dict:
         """Named regions of the entry state (z3 Bool) used by known_findings.json entries."""
         return {}
